@@ -144,6 +144,9 @@ Definition m_update (c : cond) (ids : list nat) (tbl : list (rec nat)) (ca : lis
   && (negb (m_last_is past i WSkipped) || nil_b e)
   (* reported failed, condition holds now -> reported reconciled *)
   && (negb (m_last_is past i WFailed && m_holds_suff c r o) || list_eqb ev_eqb e [(i, WSuccessful)])
+  (* still pending (or timed out), condition holds now -> reported reconciled *)
+  && (negb ((m_last_is past i WPending || m_last_is past i WTimeout) && inb i ids && m_holds_suff c r o)
+      || list_eqb ev_eqb e [(i, WSuccessful)])
   (* reported reconciled, condition no longer holds -> reported pending again
      (failed when an applied object was replaced) *)
   && (negb (m_last_is past i WSuccessful && negb (m_holds_suff c r o))
